@@ -226,9 +226,13 @@ impl TokenBucketBudget {
     /// replenished via `deposit()` calls on successful requests.
     pub fn new(_tokens_per_second: f64, max_tokens: usize, initial_tokens: usize) -> Self {
         const SCALE: u64 = 1000;
+        // The balance never exceeds the maximum, not even initially, and huge
+        // sizes saturate instead of overflowing the scaled representation.
+        let max_tokens = (max_tokens as u64).saturating_mul(SCALE);
+        let initial_tokens = (initial_tokens as u64).saturating_mul(SCALE).min(max_tokens);
         Self {
-            tokens: AtomicU64::new((initial_tokens as u64) * SCALE),
-            max_tokens: (max_tokens as u64) * SCALE,
+            tokens: AtomicU64::new(initial_tokens),
+            max_tokens,
         }
     }
 }
